@@ -272,6 +272,7 @@ type SolverResult struct {
 type solverDef struct {
 	name string
 	args func(file string, tmo time.Duration) []string
+	weak bool // runs with part of a theory switched off: its `unsat` is valid, its `sat` is not believed
 }
 
 func z3cfg(bin string, opts ...string) func(string, time.Duration) []string {
@@ -286,18 +287,26 @@ func z3cfg(bin string, opts ...string) func(string, time.Duration) []string {
 // decoration: measured on slice.Chunks, the same query is decided in 0.1 s by one configuration and times out
 // in the others, and which one wins changes from query to query.
 var solvers = []solverDef{
-	{"z3-new", z3cfg("z3-new")},
-	{"z3", z3cfg("z3")},
-	{"cvc5", func(f string, t time.Duration) []string {
+	{name: "z3-new", args: z3cfg("z3-new")},
+	{name: "z3", args: z3cfg("z3")},
+	{name: "cvc5", args: func(f string, t time.Duration) []string {
 		return []string{"cvc5", fmt.Sprintf("--tlimit=%d", t.Milliseconds()), f}
 	}},
-	{"z3-new/arith2", z3cfg("z3-new", "smt.arith.solver=2")},
-	{"z3-new/norelevancy", z3cfg("z3-new", "smt.relevancy=0")},
-	{"z3/norelevancy", z3cfg("z3", "smt.relevancy=0")},
-	{"z3/noautoconfig", z3cfg("z3", "auto_config=false")},
-	{"z3-new/seed3", z3cfg("z3-new", "smt.random_seed=3")},
-	{"z3-new/casesplit3", z3cfg("z3-new", "auto_config=false", "smt.case_split=3")},
-	{"z3/casesplit3", z3cfg("z3", "auto_config=false", "smt.case_split=3")},
+	{name: "z3-new/arith2", args: z3cfg("z3-new", "smt.arith.solver=2")},
+	{name: "z3-new/norelevancy", args: z3cfg("z3-new", "smt.relevancy=0")},
+	{name: "z3/norelevancy", args: z3cfg("z3", "smt.relevancy=0")},
+	{name: "z3/noautoconfig", args: z3cfg("z3", "auto_config=false")},
+	{name: "z3-new/seed3", args: z3cfg("z3-new", "smt.random_seed=3")},
+	{name: "z3-new/casesplit3", args: z3cfg("z3-new", "auto_config=false", "smt.case_split=3")},
+	{name: "z3/casesplit3", args: z3cfg("z3", "auto_config=false", "smt.case_split=3")},
+	// recursive data-structure invariants (stree) unfold one level per instantiation generation, in two directions:
+	// with the default threshold the solver unfolds ten levels eagerly (2^10 instances) before looking elsewhere
+	{name: "z3-new/eager4", args: z3cfg("z3-new", "smt.qi.eager_threshold=4")},
+	{name: "z3/eager5", args: z3cfg("z3", "smt.qi.eager_threshold=5")},
+	// array extensionality off: equalities between set-valued ghost fields (frames) otherwise drown the search in
+	// extensionality axioms. Dropping axioms keeps `unsat` valid; a `sat` from these is recorded as unknown.
+	{name: "z3-new/noext", args: z3cfg("z3-new", "smt.array.extensional=false"), weak: true},
+	{name: "z3/noext", args: z3cfg("z3", "smt.array.extensional=false"), weak: true},
 }
 
 func runOne(ctx context.Context, sd solverDef, file string, tmo time.Duration) (status, output string, secs float64) {
@@ -324,6 +333,9 @@ func runOne(ctx context.Context, sd solverDef, file string, tmo time.Duration) (
 	switch first {
 	case "unsat", "sat", "unknown":
 		status = first
+		if status == "sat" && sd.weak {
+			status = "unknown"
+		}
 	case "timeout":
 		status = "timeout"
 	default:
